@@ -134,6 +134,7 @@ def env_args(desc, env):
 @register
 class C16(Check):
     pid = "C16"
+    uses_generated = True
     slices = ["der-values", "der-of-declared-symbols", "der-rejects-controls", "control-chain", "der-of-signal-expressions"]
 
     def explanation(self):
